@@ -38,6 +38,7 @@ func c18JSON[T any](r *vkit.Report, name string, x *T) *T {
 	if err != nil || !bytes.Equal(b1, b2) {
 		r.Violate("C18|message-re-encoding-differs|json|"+name, fmt.Sprintf("%v\n%s\n%s", err, vfTrunc(b1), vfTrunc(b2)), name)
 	}
+	r.Outcome(fmt.Sprintf("json:%T:bytes<%d", *x, 1<<uint(bitsLen(len(b1)))))
 	return y
 }
 
@@ -233,4 +234,13 @@ func TestVerifC18Messages(t *testing.T) {
 	}
 	_ = gabikeys.DefaultEpochLength
 	_ = rangeproof.GreaterOrEqual
+}
+
+func bitsLen(n int) int {
+	k := 0
+	for n > 0 {
+		k++
+		n >>= 1
+	}
+	return k
 }
